@@ -398,10 +398,15 @@ func runC06Commit(rc *RunCtx, storeError bool) *simkit.Violation {
 	var dia *core.Diamond
 	cp := t.Range(0, 3)
 	kind := simkit.Kind(int(simkit.FCrashB) + t.Choose(2))
+	anyCall := false
 	if storeError {
 		kind = simkit.Kind(int(simkit.FErr) + t.Choose(2))
+		if t.Bool(1, 2) {
+			// the error hits any call of the commit, reads of split descriptors and file lists included
+			anyCall, kind, cp = true, simkit.FErr, t.Range(0, 25)
+		}
 	}
-	w.Faults = &simkit.FaultCfg{Plan: []*simkit.Planned{{Client: "victim", Nth: cp, Kind: kind}}}
+	w.Faults = &simkit.FaultCfg{Plan: []*simkit.Planned{{Client: "victim", Nth: cp, Any: anyCall, Kind: kind}}}
 	w.Note("history %d bundles; diamond with %d splits; commit meets %s at its write #%d", len(r.Bundles), ns, kind, cp)
 	vt := w.Go(victim, "commit", commitFn(d.Stores(victim), "r1", did, model.IgnoreConflicts, 0, &dia))
 	if v := w.Run(); v != nil {
@@ -415,7 +420,7 @@ func runC06Commit(rc *RunCtx, storeError bool) *simkit.Violation {
 		extra[dia.BundleID] = &mBundle{ID: dia.BundleID, Tree: merged, Leaf: 2 << 20}
 		landed = d.Meta.Peek(model.GetArchivePathToBundle("r1", dia.BundleID)) != nil
 	}
-	errored := storeError && !victim.Dead && victim.Writes > cp
+	errored := storeError && !victim.Dead && (victim.Writes > cp || (anyCall && victim.Calls > cp))
 	if errored {
 		w.Probe("nontrivial")
 		w.Probe("store-error-fired")
